@@ -7,6 +7,7 @@ export GOFLAGS=-mod=mod GOPROXY=off GOSUMDB=off GOTOOLCHAIN=local CGO_ENABLED=0
 mkdir -p build evidence replays
 (cd lean && lake build)
 cp /repo/go.sum harness/go.sum
+python3 tools/mkgomod.py /repo harness/go.mod
 (cd harness && go build -tags verif -o ../build/bfharness .)
 if [ -f tools/factgen/main.go ]; then (cd tools/factgen && go build -o ../../build/factgen .); fi
 echo setup-ok
